@@ -63,7 +63,9 @@ func runRatchet(u Univ, from, to pebble.FormatMajorVersion, seed uint64, path st
 		write(3, true) // acknowledged, only in the WAL
 		r.Exec(Ev{"op": "scan", "src": 0, "cls": "latest"})
 		// the ratchet, probed
+		t.Mu.Lock() // bounds change under the trace mutex: never in the middle of a probe
 		c.fmvhi = int(to)
+		t.Mu.Unlock()
 		c.disabled = false
 		rerr := r.DB.RatchetFormatMajorVersion(to)
 		c.disabled = true
@@ -71,7 +73,11 @@ func runRatchet(u Univ, from, to pebble.FormatMajorVersion, seed uint64, path st
 		if rerr != nil {
 			ev["err"] = rerr.Error()
 		} else {
+			// A probe in progress (another goroutine's FS op) took its clones before the call returned:
+			// the acknowledgement is recorded only once that probe is complete.
+			t.Mu.Lock()
 			c.fmvlo = int(to)
+			t.Mu.Unlock()
 			// lowering must be refused and must not change the version
 			lerr := r.DB.RatchetFormatMajorVersion(from)
 			ev["lowerrefused"] = lerr != nil && r.DB.FormatMajorVersion() == to
